@@ -68,7 +68,25 @@ theorem methodParams_spec {ps : List MethodParam} {p p' : Pool} {b : Bytes} (hg 
 
 /-- methods: framing, legality (for any bootstrap table: no `Code` here), effect on the facts -/
 def ownMethod : Own SMethodAttr MethodFacts :=
-  ⟨SMethodAttr.frame, fun rp a => ∀ bsms : Option (List ClassRead.Bsm), a.Legal rp bsms, SMethodAttr.apply⟩
+  ⟨SMethodAttr.frame, fun q a => Sound q (fun rp => ∀ bsms : Option (List ClassRead.Bsm), a.Legal rp bsms),
+   fun hl h => h.mono hl, SMethodAttr.apply⟩
+
+/-- methods, with the bootstrap rows collected so far: an attribute is sound when it is legal for every later pool and
+every later bootstrap table -/
+def ownMethodAt (bs : List Bsm) : Own SMethodAttr MethodFacts :=
+  ⟨SMethodAttr.frame, fun q a => Sound2 q bs (fun rp bsms => a.Legal rp bsms), fun hl h => h.mono hl (BsExt.refl _),
+   SMethodAttr.apply⟩
+
+/-- an attribute that does not look at the bootstrap table is sound whatever the table -/
+theorem GBlock.at {o : Option Bytes} {q : Pool} {pre : MethodFacts → Prop} {upd : MethodFacts → MethodFacts}
+    (b : GBlock ownMethod o q pre upd) (bs : List Bsm) : GBlock (ownMethodAt bs) o q pre upd := by
+  obtain ⟨lo, h1, h2, h3⟩ := b
+  exact ⟨lo, h1, fun a ha => Sound2.of_all (P := fun rp bsms => a.Legal rp bsms) (h2 a ha), h3⟩
+
+theorem GBlocks.at {bsb : List Bytes} {q : Pool} {pre : MethodFacts → Prop} {upd : MethodFacts → MethodFacts}
+    (b : GBlocks ownMethod bsb q pre upd) (bs : List Bsm) : GBlocks (ownMethodAt bs) bsb q pre upd := by
+  obtain ⟨as, h1, h2, h3⟩ := b
+  exact ⟨as, h1, fun a ha => Sound2.of_all (P := fun rp bsms => a.Legal rp bsms) (h2 a ha), h3⟩
 
 theorem mblock_deprecated {m : MethodFacts} {o : Option Bytes} {q : Pool}
     (c : (m.deprecated = false ∧ o = none) ∨ (m.deprecated = true ∧ Present o q sDeprecated [])) :
@@ -218,18 +236,18 @@ theorem mblocks_unknown {m : MethodFacts} (hok : ∀ a ∈ m.attrs, a.name ∉ m
     exact applyAll_method_unknown st ncs m.attrs hlen
 
 /-- the `Code` block of `write_method` -/
-theorem codeAttr_spec {code : Option Code} {p p' : Pool} {bs bs' : List Bsm} {as : List Bytes} (hg : Good p)
+theorem codeAttr_spec {code : Option Code} {p p' : Pool} {bs bs' : List Bsm} {as : List Bytes} (hg : Good p) (hb : BsOk bs)
     (hok : ∀ c, code = some c → CodeOk c) (h : codeAttr code p bs = .ok (as, p', bs')) :
-    bs' = bs ∧ Step p p' ∧ ∃ (o : Option Bytes) (code' : Option Code), as = o.toList ∧
+    (Step p p' ∧ BsExt bs bs' ∧ BsOk bs') ∧ ∃ (o : Option Bytes) (code' : Option Code), as = o.toList ∧
       ((code = none ∧ code' = none ∧ o = none) ∨
         ∃ (c : Code) (cl : CodeLayout) (nc : Nat), code = some c ∧ c.resolve = some cl.facts ∧ code' = some cl.facts ∧
-          Present o p' sCode cl.encode ∧ (∀ bsms, Sound p' (fun rp => cl.Legal rp bsms)) ∧ cl.encode.length < 4294967296) := by
+          Present o p' sCode cl.encode ∧ Sound2 p' bs' (fun rp bsms => cl.Legal rp bsms) ∧ cl.encode.length < 4294967296) := by
   cases code with
   | none =>
     have := ok_inj.mp (show (Except.ok ([], p, bs) : Except Fail _) = .ok (as, p', bs') from h)
     simp only [Prod.mk.injEq] at this
     obtain ⟨rfl, rfl, rfl⟩ := this
-    exact ⟨rfl, Step.refl hg, none, none, rfl, Or.inl ⟨rfl, rfl, rfl⟩⟩
+    exact ⟨⟨Step.refl hg, BsExt.refl _, hb⟩, none, none, rfl, Or.inl ⟨rfl, rfl, rfl⟩⟩
   | some c =>
     obtain ⟨⟨b, p1, bs1⟩, h1, h⟩ := bind_eq_ok.mp h
     obtain ⟨⟨i, p2⟩, h2, h⟩ := bind_eq_ok.mp h
@@ -247,28 +265,28 @@ theorem codeAttr_spec {code : Option Code} {p p' : Pool} {bs bs' : List Bsm} {as
       simp only at hc
       have hc' := code_resolve_eq hr
       rw [hc'] at hc
-      obtain ⟨rfl, s1, cl, rfl, hsd, hf⟩ := writeCode_spec rfl hg hc h1
+      obtain ⟨⟨s1, e1, o1⟩, cl, rfl, hsd, hf⟩ := writeCode_spec rfl hg hb hc h1
       obtain ⟨s2, a2, hi⟩ := putUtf8_spec s1.good h2
-      refine ⟨rfl, s1.trans s2, some (attrFrame i cl.encode), some cl.facts, rfl, Or.inr ⟨c, cl, i, rfl, ?_, rfl,
-        ⟨i, rfl, hi, a2⟩, fun bsms => (hsd bsms).mono s2.le, by omega⟩⟩
+      refine ⟨⟨s1.trans s2, e1, o1⟩, some (attrFrame i cl.encode), some cl.facts, rfl, Or.inr ⟨c, cl, i, rfl, ?_, rfl,
+        ⟨i, rfl, hi, a2⟩, hsd.mono s2.le (BsExt.refl _), by omega⟩⟩
       rw [hf, ← hc']
       exact hr
 
-theorem mblock_code {o : Option Bytes} {q : Pool} {code' : Option Code}
+theorem mblock_code {o : Option Bytes} {q : Pool} {bs : List Bsm} {code' : Option Code}
     (c : (code' = none ∧ o = none) ∨
       ∃ (cl : CodeLayout), code' = some cl.facts ∧ Present o q sCode cl.encode ∧
-        (∀ bsms, Sound q (fun rp => cl.Legal rp bsms)) ∧ cl.encode.length < 4294967296) :
-    GBlock ownMethod o q (fun st => st.code = none) (fun st => { st with code := code' }) := by
+        Sound2 q bs (fun rp bsms => cl.Legal rp bsms) ∧ cl.encode.length < 4294967296) :
+    GBlock (ownMethodAt bs) o q (fun st => st.code = none) (fun st => { st with code := code' }) := by
   rcases c with ⟨rfl, rfl⟩ | ⟨cl, rfl, ⟨nc, rfl, hn, a⟩, hs, hl⟩
   · exact gblock_absent (fun st hst => by cases st; simp_all)
-  · exact gblock_present (O := ownMethod) (.code nc cl)
-      (fun q' hq bsms => ⟨hn, getUtf8_of hq.good (a.mono hq.le), hs bsms q' hq, hl⟩)
-      (fun st hst => by simp [ownMethod, SMethodAttr.apply, hst])
+  · exact gblock_present (O := ownMethodAt bs) (.code nc cl)
+      (fun q' bs' hq hbs => ⟨hn, getUtf8_of hq.good (a.mono hq.le), hs q' bs' hq hbs, hl⟩)
+      (fun st hst => by simp [ownMethodAt, SMethodAttr.apply, hst])
 
-theorem writeMethod_spec {p p' : Pool} {bs bs' : List Bsm} {m : MethodFacts} {b : Bytes} (hg : Good p) (hok : MethodOk m)
-    (h : writeMethod p bs m = .ok (b, p', bs')) :
-    bs' = bs ∧ Step p p' ∧
-      ∃ l : MethodLayout, b = l.encode ∧ (∀ bsms, Sound p' (fun rp => l.Legal rp bsms)) ∧
+theorem writeMethod_spec {p p' : Pool} {bs bs' : List Bsm} {m : MethodFacts} {b : Bytes} (hg : Good p) (hb : BsOk bs)
+    (hok : MethodOk m) (h : writeMethod p bs m = .ok (b, p', bs')) :
+    (Step p p' ∧ BsExt bs bs' ∧ BsOk bs') ∧
+      ∃ l : MethodLayout, b = l.encode ∧ Sound2 p' bs' (fun rp bsms => l.Legal rp bsms) ∧
         ∃ m', m.resolve = some m' ∧ l.facts = some m' := by
   obtain ⟨⟨ni, p1⟩, h1, h⟩ := bind_eq_ok.mp h
   obtain ⟨⟨di, p2⟩, h2, h⟩ := bind_eq_ok.mp h
@@ -292,7 +310,7 @@ theorem writeMethod_spec {p p' : Pool} {bs bs' : List Bsm} {m : MethodFacts} {b 
   obtain ⟨o10, q10, r8, e10, k7, rfl⟩ := runAttrs_cons_inv k6
   obtain ⟨t1, c1⟩ := flagAttr_spec s2.good e1
   obtain ⟨t2, c2⟩ := flagAttr_spec t1.good e2
-  obtain ⟨rfl, tc, oc, code', rfl, cc⟩ := codeAttr_spec t2.good hok.code h4
+  obtain ⟨⟨tc, ebs, obs⟩, oc, code', rfl, cc⟩ := codeAttr_spec t2.good hb hok.code h4
   obtain ⟨t3, c3⟩ := classListAttr_spec (name := sExceptions) tc.good e3
   obtain ⟨t4, c4⟩ := sigAttr_spec t3.good e4
   obtain ⟨t5, c5⟩ := annosAttr_spec t4.good hok.rva e5a
@@ -341,26 +359,26 @@ theorem writeMethod_spec {p p' : Pool} {bs bs' : List Bsm} {m : MethodFacts} {b 
   have sc := tc.trans s2'
   have s1' := t2.trans sc
   have s0 := t1.trans s1'
-  refine ⟨rfl, s1.trans (s2.trans s0), ?_⟩
+  refine ⟨⟨s1.trans (s2.trans s0), ebs, obs⟩, ?_⟩
   have ccode : (code' = none ∧ oc = none) ∨
       ∃ (cl : CodeLayout), code' = some cl.facts ∧ Present oc p4 sCode cl.encode ∧
-        (∀ bsms, Sound p4 (fun rp => cl.Legal rp bsms)) ∧ cl.encode.length < 4294967296 := by
+        Sound2 p4 bs' (fun rp bsms => cl.Legal rp bsms) ∧ cl.encode.length < 4294967296 := by
     rcases cc with ⟨_, h2', h3'⟩ | ⟨c, cl, nc, _, _, h3', h4', h5', h6'⟩
     · exact Or.inl ⟨h2', h3'⟩
     · exact Or.inr ⟨cl, h3', h4', h5', h6'⟩
   have B :=
-    GBlocks.cons' (mblock_deprecated c1) s1'.le
-    (GBlocks.cons' (mblock_synthetic c2) sc.le
+    GBlocks.cons' ((mblock_deprecated c1).at bs') s1'.le
+    (GBlocks.cons' ((mblock_synthetic c2).at bs') sc.le
     (GBlocks.cons (mblock_code ccode) s2'.le
-    (GBlocks.cons (mblock_exceptions hok.exceptions c3) s3.le
-    (GBlocks.cons (mblock_signature c4) s4.le
-    (GBlocks.cons' (mblock_annos true c5) s5.le
-    (GBlocks.cons' (mblock_annos false c6) s6.le
-    (GBlocks.cons' (mblock_typeAnnos true c7) s7.le
-    (GBlocks.cons' (mblock_typeAnnos false c8) s8.le
-    (GBlocks.cons (mblock_annotationDefault c9) s9.le
-    (GBlocks.cons (mblock_params hok.params c10) s10.le
-      (mblocks_unknown hok.unknown hlen hunk)
+    (GBlocks.cons ((mblock_exceptions hok.exceptions c3).at bs') s3.le
+    (GBlocks.cons ((mblock_signature c4).at bs') s4.le
+    (GBlocks.cons' ((mblock_annos true c5).at bs') s5.le
+    (GBlocks.cons' ((mblock_annos false c6).at bs') s6.le
+    (GBlocks.cons' ((mblock_typeAnnos true c7).at bs') s7.le
+    (GBlocks.cons' ((mblock_typeAnnos false c8).at bs') s8.le
+    (GBlocks.cons ((mblock_annotationDefault c9).at bs') s9.le
+    (GBlocks.cons ((mblock_params hok.params c10).at bs') s10.le
+      ((mblocks_unknown hok.unknown hlen hunk).at bs')
       (pre := fun c : MethodFacts => c.params = none) (fun c h => ⟨h, trivial⟩))
       (pre := fun c : MethodFacts => c.annotationDefault = none ∧ c.params = none) (fun c h => ⟨h.1, h.2⟩))
       (pre2 := fun c : MethodFacts => c.annotationDefault = none ∧ c.params = none) (fun c h => ⟨h.1, h.2⟩))
@@ -380,16 +398,16 @@ theorem writeMethod_spec {p p' : Pool} {bs bs' : List Bsm} {m : MethodFacts} {b 
   have hb' : o1.toList ++ (o2.toList ++ []) ++ oc.toList ++ (o3.toList ++ (o4.toList ++ (o5.toList ++ (o6.toList ++ (o7.toList ++
       (o8.toList ++ [])))  ++ (o9.toList ++ (o10.toList ++ List.map (fun x => attrFrame x.fst x.snd.bytes) (ncs.zip m.attrs))))))
       = attrs.map SMethodAttr.frame := by
-    rw [show attrs.map SMethodAttr.frame = attrs.map ownMethod.frame from rfl, ← hbytes]; simp [List.append_assoc]
+    rw [show attrs.map SMethodAttr.frame = attrs.map (ownMethodAt bs').frame from rfl, ← hbytes]; simp [List.append_assoc]
   refine ⟨⟨m.access, ni, m.name, di, m.desc, attrs⟩, ?_, ?_, ?_⟩
   · simp only [MethodLayout.encode, encAttrs_eq]
     rw [hb', List.length_map]
     rfl
-  · intro bsms q hq
+  · intro q bs'' hq hbs
     have hq1 : Ext p1 q := hq.of_le (s2.trans s0).le
     have hq2 : Ext p2 q := hq.of_le s0.le
     refine ⟨hok.access, hni, hdi, getUtf8_of hq.good (a1.mono hq1.le), hok.name, getUtf8_of hq.good (a2.mono hq2.le), ?_,
-      fun a ha => hsound a ha q hq bsms⟩
+      fun a ha => hsound a ha q bs'' hq hbs⟩
     rw [hb', List.length_map] at hcount
     show attrs.length < 65536
     omega
@@ -404,7 +422,7 @@ theorem writeMethod_spec {p p' : Pool} {bs bs' : List Bsm} {m : MethodFacts} {b 
       · rw [h1', h3']
         simp [h2', bind, Option.bind]
     · simp only [MethodLayout.facts]
-      show applyAll ownMethod.apply _ attrs = some _
+      show applyAll (ownMethodAt bs').apply _ attrs = some _
       rw [this]
       have hm := hok.mask
       cases m
